@@ -2,6 +2,8 @@ from dataclasses import replace
 
 import numpy as np
 
+from ..generic_utils import OrientedBoundary
+
 
 class MeshSimplex:
     """Mixin for simplical meshes."""
@@ -26,8 +28,23 @@ class MeshSimplex:
         t[0, flip] = t1
         t[1, flip] = t0
 
-        return replace(
+        m = replace(
             self,
             t=t,
             sort_t=False,
         )
+
+        if self._boundaries is not None and len(flip) > 0:
+            # flipping an element renumbers its local facets and thereby the
+            # order of the two elements of a facet: an oriented boundary
+            # keeps naming the element it named before
+            boundaries = {}
+            for k, v in self._boundaries.items():
+                if isinstance(v, OrientedBoundary):
+                    owner = self.f2t[v.ori, np.asarray(v)]
+                    ori = (m.f2t[1, np.asarray(v)] == owner).astype(np.int32)
+                    v = OrientedBoundary(np.asarray(v), ori)
+                boundaries[k] = v
+            m = replace(m, _boundaries=boundaries)
+
+        return m
